@@ -543,7 +543,9 @@ func (fc *funcContext) translateExpr(expr ast.Expr) *expression {
 				fc.zeroValue(t.Elem()),
 			)
 		case *types.Basic:
-			return fc.formatExpr("%e.charCodeAt(%f)", e.X, e.Index)
+			// A constant index is only checked at compile time against a constant string.
+			constantIndex := fc.pkgCtx.Types[e.Index].Value != nil && fc.pkgCtx.Types[e.X].Value != nil
+			return fc.formatExpr(rangeCheck("%1e.charCodeAt(%2f)", constantIndex, true), e.X, e.Index)
 		case *types.Signature:
 			switch u := e.X.(type) {
 			case *ast.Ident:
@@ -1177,7 +1179,8 @@ func (fc *funcContext) translateConversion(expr ast.Expr, desiredType types.Type
 			switch et := exprType.Underlying().(type) {
 			case *types.Basic:
 				if is64Bit(et) {
-					value = fc.formatExpr("%s.$low", value)
+					// Only values that fit into the low word can be valid code points.
+					value = fc.formatExpr("(%1s.$high === 0 ? %1s.$low : -1)", value)
 				}
 				if isNumeric(et) {
 					return fc.formatExpr("$encodeRune(%s)", value)
